@@ -47,3 +47,101 @@ Theorem C13_keys_inj_sound : forall l, keys_inj_b l = true ->
   forall c1 c2 k, In (c1, k) l -> In (c2, k) l -> c1 = c2.
 Proof. exact keys_inj_sound. Qed.
 Print Assumptions C13_keys_inj_sound.
+
+(** --- pruning on the interpreter of the whole parser engine ([Pem.Model], validated against the real parser
+    on every run).  The unpruned twin is the interpreter itself on the tokens with [p_fnw] erased ([strip]:
+    [prune] is then the identity and nothing else reads [p_fnw]); [parse_root_ref] additionally does not let
+    [Ref.exclude] swallow a [SQLParseError] (an error of a sub-match ends the reference run without an answer). *)
+From Coq Require Import FMapPositive.
+From Sq Require Import Pem.Model Pem.FuelMono Pem.PruneDef Pem.PruneSound Pem.PruneProofs Pem.PruneMon Pem.PruneEx Pem.PruneLegacy.
+
+(** the unpruned twin really is "prune replaced by the identity" *)
+Theorem Pem_np_prune_is_identity : forall g toks opts len idx, prune g (strip toks) opts len idx = ROk opts.
+Proof. exact prune_strip. Qed.
+Print Assumptions Pem_np_prune_is_identity.
+
+(** Hint soundness: on a graph whose dumped hints are justified ([hints_sound_b], decided per dialect by
+    [vm_compute]), a node in scope whose hint excludes the code token standing at [idx] never answers with a
+    match - for every token array, regex oracle, fuel, slice and context. *)
+Theorem Pem_hint_sound : forall g, hints_sound_b g = true ->
+  forall toks rx fuel n h idx len terms,
+    Hinted g (scope g) n h -> Out g (scope g) (strip toks) h idx len ->
+    forall m, match_node_ref g toks rx fuel n idx len terms = ROk m -> has_match m = false.
+Proof. exact hint_sound. Qed.
+Print Assumptions Pem_hint_sound.
+
+(** Pruning transparency: for every graph with justified hints, every token array satisfying the token
+    premise, every regex oracle, fuel and span - whenever the reference run yields a match result, the
+    pruned interpreter yields the same result. *)
+Theorem Pem_prune_transparent : forall g, hints_sound_b g = true ->
+  forall toks rx fuel s e m, toks_ok g toks ->
+    parse_root_ref g toks rx fuel s e = ROk m -> parse_root g toks rx fuel s e = ROk m.
+Proof. exact prune_transparent. Qed.
+Print Assumptions Pem_prune_transparent.
+
+(** The full statement one would like,
+      [hints_sound_b g = true -> toks_ok g toks -> parse_root g toks rx fuel s e = parse_root_np g toks rx fuel s e],
+    is false for outcomes other than a match result of the reference run: the unpruned run can end in [RErr]
+    ([Pem_error_outcomes_differ_refuted] below), in a panic or out of fuel inside an alternative that pruning
+    never evaluates, and [Ref.exclude] turns such an [RErr] into "not excluded".  What is proved is the largest
+    fragment that is true: every [ROk] outcome of the reference run, at that fuel and every larger one. *)
+Theorem Pem_prune_transparent_fuel : forall g, hints_sound_b g = true ->
+  forall toks rx fuel fuel' s e m, toks_ok g toks -> (fuel <= fuel')%nat ->
+    parse_root_ref g toks rx fuel s e = ROk m -> parse_root g toks rx fuel' s e = ROk m.
+Proof. exact prune_transparent_fuel. Qed.
+Print Assumptions Pem_prune_transparent_fuel.
+
+(** ... and so does the interpreter with pruning merely switched off (errors swallowed as the code does) *)
+Theorem Pem_ref_refines_np : forall g toks rx fuel s e m,
+  parse_root_ref g toks rx fuel s e = ROk m -> parse_root_np g toks rx fuel s e = ROk m.
+Proof. exact ref_refines_np. Qed.
+Print Assumptions Pem_ref_refines_np.
+
+(** the same on token lists with the boolean premise that the monitor evaluates on recorded parses *)
+Theorem Pem_prune_transparent_mon : forall g, hints_sound_b g = true ->
+  forall l rx fuel s e m, toks_ok_b g l = true ->
+    parse_root_ref g (toks_of_list l) rx fuel s e = ROk m ->
+    parse_root g (toks_of_list l) rx fuel s e = ROk m /\ parse_root_np g (toks_of_list l) rx fuel s e = ROk m.
+Proof. exact prune_transparent_mon. Qed.
+Print Assumptions Pem_prune_transparent_mon.
+
+(** Each premise is needed.  (1) a hint that is too small: pruning changes the result. *)
+Theorem Pem_hints_sound_needed_refuted :
+  exists g toks rx fuel s e m,
+    hints_sound_b g = false /\ toks_ok_b g toks = true
+    /\ parse_root_ref g (toks_of_list toks) rx fuel s e = ROk m /\ has_match m = true
+    /\ parse_root g (toks_of_list toks) rx fuel s e = ROk (empty_at s).
+Proof. exact hints_sound_needed_refuted. Qed.
+Print Assumptions Pem_hints_sound_needed_refuted.
+
+(** (2) a code token that carries the kind of a NodeMatcher whose hint lacks that kind. *)
+Theorem Pem_token_kind_premise_needed_refuted :
+  exists g toks rx fuel s e m,
+    hints_sound_b g = true /\ toks_ok_b g toks = false /\ risky_kinds g (scope g) = [50]
+    /\ parse_root_ref g (toks_of_list toks) rx fuel s e = ROk m /\ has_match m = true
+    /\ parse_root g (toks_of_list toks) rx fuel s e = ROk (empty_at s).
+Proof. exact token_kind_premise_needed_refuted. Qed.
+Print Assumptions Pem_token_kind_premise_needed_refuted.
+
+(** (3) the statement cannot be extended to all outcomes: with justified hints, the unpruned interpreter
+    reports [SQLParseError] (a context terminator asked first by a [Delimited] that pruning drops) where
+    the pruned one answers with a match. *)
+Theorem Pem_error_outcomes_differ_refuted :
+  exists g toks rx fuel s e m,
+    hints_sound_b g = true /\ toks_ok_b g toks = true
+    /\ parse_root_np g (toks_of_list toks) rx fuel s e = RErr
+    /\ parse_root_ref g (toks_of_list toks) rx fuel s e = RFuel
+    /\ parse_root g (toks_of_list toks) rx fuel s e = ROk m /\ has_match m = true.
+Proof. exact error_outcomes_differ_refuted. Qed.
+Print Assumptions Pem_error_outcomes_differ_refuted.
+
+(** (4) finding F1: the first-token rule before the repair (the first segment with a non-empty raw, a comment
+    included) drops an alternative that matches; the repaired rule keeps it. *)
+Theorem Pem_prune_legacy_refuted :
+  exists g toks rx fuel opts o idx len m,
+    hints_sound_b g = true /\ toks_ok_b g toks = true /\ In o opts
+    /\ prune_legacy g (toks_of_list toks) opts len idx = ROk []
+    /\ match_node g (toks_of_list toks) rx fuel o idx len [] = ROk m /\ has_match m = true
+    /\ prune g (toks_of_list toks) opts len idx = ROk opts.
+Proof. exact prune_legacy_refuted. Qed.
+Print Assumptions Pem_prune_legacy_refuted.
